@@ -413,6 +413,17 @@ fn dechunk(mut b: &[u8]) -> Option<Vec<u8>> {
     }
 }
 
+/// Simulator access to the private HTTP helpers.
+#[cfg(qe_verif)]
+pub mod verif {
+    pub fn dechunk(b: &[u8]) -> Option<Vec<u8>> {
+        super::dechunk(b)
+    }
+    pub fn http_get(base_url: &str, path: &str) -> crate::error::Result<Vec<u8>> {
+        super::http_get(base_url, path)
+    }
+}
+
 #[cfg(test)]
 mod tests {
     use super::*;
